@@ -73,6 +73,10 @@ pub enum Strategy {
     /// like PlantSamples, but at the start of every `every`-th key-generation candidate (the
     /// generator polls the crate's candidate counter hook to see where candidates begin)
     PlantPerCandidate { groups: u64, base: [u8; 9], sign: u8, every: u64 },
+    /// sampler call i (i < bits.len()) returns floor(centre) + bits[i] at its first iteration
+    /// (base sampler bytes 0xff -> z0 = 0, sign byte = the bit, Bernoulli bytes 0 -> accept);
+    /// honest afterwards
+    Directed { bits: Vec<bool> },
 }
 
 impl Strategy {
@@ -87,6 +91,7 @@ impl Strategy {
             Strategy::ForcedSalt { .. } => "forced-salt".into(),
             Strategy::SharedWindow { lo, hi, .. } => format!("shared-window-{}-{}", lo, hi),
             Strategy::PlantSamples { groups, .. } => format!("plant-{}-samples", groups),
+            Strategy::Directed { bits } => format!("directed-{}-calls", bits.len()),
             Strategy::PlantPerCandidate { groups, every, .. } => format!("plant-{}-samples-every-{}-candidates", groups, every),
         }
     }
@@ -143,6 +148,7 @@ impl ScriptedRng {
             Strategy::CounterPrefix { prefix } => self.total_u32 < *prefix,
             Strategy::ForcedSalt { .. } | Strategy::SharedWindow { .. } => false,
             Strategy::PlantSamples { groups, .. } => group < *groups,
+            Strategy::Directed { bits } => (group as usize) < bits.len(),
             Strategy::PlantPerCandidate { groups, every, .. } => self.cand % *every == 1 % *every && (self.total_u32 - self.cand_start) / 17 < *groups,
         }
     }
@@ -207,6 +213,16 @@ impl ScriptedRng {
                 Strategy::ConstPrefix { byte, .. } => byte,
                 Strategy::CounterPrefix { .. } => self.total_u32 as u8,
                 Strategy::Honest | Strategy::ForcedSalt { .. } | Strategy::SharedWindow { .. } => honest as u8,
+                Strategy::Directed { bits } => {
+                    let group = (self.total_u32 / 17) as usize;
+                    if slot < 9 {
+                        0xff
+                    } else if slot == 9 {
+                        bits[group] as u8
+                    } else {
+                        0
+                    }
+                }
                 Strategy::PlantSamples { base, sign, .. } | Strategy::PlantPerCandidate { base, sign, .. } => {
                     if slot < 9 {
                         base[slot as usize]
